@@ -233,6 +233,10 @@ func (ex *Exec) targetKeys(env *Env, mt ModTarget) (keys []string, ref *Term, er
 	e := mt.E
 	if mt.Elts {
 		x := env.compile(e, 0)
+		if mp, ok := x.T.Underlying().(*types.Map); ok {
+			d, l, vs := mapKeys(mp)
+			return append([]string{d, l}, vs...), x.one(), nil
+		}
 		sl, ok := x.T.Underlying().(*types.Slice)
 		if !ok {
 			cfail("%s[*]: not a slice", e)
